@@ -160,3 +160,65 @@ package dht
 // for the configured 5-minute interval) and never once three intervals (15 minutes) have passed.
 //@ lemma int-token-honoured-two-intervals: forall t0, now, I mathint :: I > 0 && t0 >= 0 && now >= t0 && now - t0 <= 2 * I ==> godiv(now, I) == godiv(t0, I) || godiv(now - I, I) == godiv(t0, I) || godiv(now - I - I, I) == godiv(t0, I)
 //@ lemma int-token-refused-after-three-intervals: forall t0, now, I mathint :: I > 0 && t0 >= 0 && now - t0 >= 3 * I ==> godiv(now, I) != godiv(t0, I) && godiv(now - I, I) != godiv(t0, I) && godiv(now - I - I, I) != godiv(t0, I)
+
+// ---- the server: routing-table maintenance seen from the packet handlers ----
+// updateNode and everything below it write only routing-table state: fields of node and bucket objects and the
+// table's maps. (Typed frame, checked structurally on every run: writes-within.)
+//@ func (*dht.Server).updateNode
+//@   requires nonnil: s != nil && addr != nil
+//@   modifies types node, bucket, table, time.Time
+
+// ---- C08 / C10 / C19 / C11: the query handler ----
+// Effects are calls of reply / sendError / store.Put and the spawning of AddPeer / OnAnnouncePeer; count("call:f")
+// and count("go:f") count them on the current path. Every clause below is taken from the property statements.
+
+// user hooks and stores: assumed not to modify the message or module state
+//@ func (*dht.Server).handleQuery@OnQuery
+//@   trusted
+//@   option records propagate
+
+//@ func (*dht.Server).validToken
+//@   trusted
+//@   option records tokenok
+//@ func (*dht.Server).createToken
+//@   trusted
+//@   option records token
+
+//@ func (*dht.Server).reply
+//@   trusted
+//@ func (*dht.Server).sendError
+//@   trusted
+
+//@ func (*dht.Server).setReturnNodes
+//@   trusted
+//@   modifies r.Nodes, r.Nodes6
+//@   ensures missing-args: (result != nil) == (queryMsg.A == nil)
+//@   ensures protocol-error: result != nil ==> result.Code == 203
+
+//@ spec def needsargs(q string) bool = q == "find_node" || q == "get_peers" || q == "announce_peer" || q == "put" || q == "get"
+//@ spec def known(q string) bool = q == "ping" || needsargs(q)
+//@ spec def writes(q string) bool = q == "announce_peer" || q == "put"
+//@ spec def replies() mathint = count("call:(*dht.Server).reply") + count("call:(*dht.Server).sendError")
+
+//@ func (*dht.Server).handleQuery
+//@   requires nonnil: s != nil && source != nil && s.store != nil && s.store.s != nil
+//@   requires unlocked-wrapper: !held(s.store.mu)
+//@   requires globals: krpcErrMissingArguments.Code == 203 && krpc.ErrorMethodUnknown.Code == 204
+//@   requires bep44-globals: bep44.ErrValueFieldTooBig.Code == 205 && bep44.ErrInvalidSignature.Code == 206 && bep44.ErrSaltFieldTooBig.Code == 207 && bep44.ErrCasHashMismatched.Code == 301 && bep44.ErrSequenceNumberLessThanCurrent.Code == 302 && bep44.Empty32ByteArray == 0 && bep44.ErrItemNotFound != nil
+//@   modifies *
+//@   callsite (*dht.Server).reply to-the-asker: $addr == source && $t == m.T
+//@   callsite (*dht.Server).sendError to-the-asker: $addr == source && $t == m.T
+//@   callsite (*dht.Server).reply not-passive: !s.config.Passive && (s.config.OnQuery != nil ==> recorded("propagate"))
+//@   callsite (*dht.Server).sendError not-passive: !s.config.Passive && (s.config.OnQuery != nil ==> recorded("propagate"))
+//@   callsite (*dht.Server).reply writes-need-token: writes(m.Q) ==> recorded("tokenok")
+//@   callsite (*dht.Server).sendError writes-need-token: writes(m.Q) ==> recorded("tokenok") || (m.A == nil && $e.Code == 203)
+//@   callsite (*dht/bep44.Wrapper).Put writes-need-token: m.Q == "put" && recorded("tokenok")
+//@   callsite go:(dht/peer-store.Interface).AddPeer writes-need-token: m.Q == "announce_peer" && recorded("tokenok")
+//@   callsite go:dynamic:h writes-need-token: m.Q == "announce_peer" && recorded("tokenok")
+//@   callsite (*dht.Server).validToken checks-the-query-token: m.A != nil && $token == m.A.Token && $addr == source
+//@   callsite (*dht.Server).sendError unknown-method-204: !known(m.Q) ==> $e.Code == 204
+//@   callsite (*dht.Server).sendError missing-arguments-203: needsargs(m.Q) && m.A == nil ==> $e.Code == 203
+//@   ensures one-datagram-at-most: replies() <= 1
+//@   ensures answered-when-due: !s.config.Passive && (s.config.OnQuery != nil ==> recorded("propagate")) && (writes(m.Q) ==> m.A != nil && recorded("tokenok")) ==> replies() == 1
+//@   ensures unknown-method-gets-an-error: !s.config.Passive && (s.config.OnQuery != nil ==> recorded("propagate")) && !known(m.Q) ==> count("call:(*dht.Server).sendError") == 1
+//@   ensures missing-arguments-get-an-error: !s.config.Passive && (s.config.OnQuery != nil ==> recorded("propagate")) && needsargs(m.Q) && m.A == nil ==> count("call:(*dht.Server).sendError") == 1
